@@ -34,8 +34,8 @@ C_UA = clause(U, 'post:ua_follows', ['C11'], 'B')
 C_SRC_WF = clause(U, 'post:sources_wf', ['C08'], 'B')
 C_DEPTHS = clause(U, 'post:depths', ['C08'], 'B')
 C_META = clause(U, 'post:meta_partial_all_optional', ['C10'], 'B')
-C_FRAME = clause(U, 'frame:inputs_unchanged', ['C16'], 'B')
-C_FRESH = clause(U, 'frame:fresh_sources', ['C16'], 'B')
+C_FRAME = clause(U, 'frame:inputs_unchanged', ['C16', 'C08'], 'B')
+C_FRESH = clause(U, 'frame:fresh_sources', ['C16', 'C08'], 'B')
 
 FLAGS = ('hide_args', 'hide_kwargs', 'use_varargs', 'use_varkwargs', 'partial')
 
